@@ -8,8 +8,8 @@ EXTENDS Coalescer, Json
 Trace == ndJsonDeserialize("trace.ndjson")
 Ranks == [p \in Callers |-> IF p = "p1" THEN 1 ELSE IF p = "p2" THEN 2 ELSE 3]
 VARIABLES l, free, obs
-StepOps == {"Call", "Cancel", "SCheck", "SFast", "SSlow", "WSelect", "WDrain", "WFlush", "XClose", "XWait"}
-Reset == /\ ch' = <<>> /\ done' = FALSE
+StepOps == {"Call", "SEnter", "Cancel", "SCheck", "SFast", "SSlow", "WSelect", "WDrain", "WFlush", "XClose", "XStop", "XWait"}
+Reset == /\ ch' = <<>> /\ done' = FALSE /\ stop' = FALSE /\ readers' = {}
          /\ pc' = [p \in Callers |-> "idle"] /\ k' = [p \in Callers |-> 1]
          /\ cancelled' = [p \in Callers |-> FALSE] /\ ncancel' = 0
          /\ accepted' = {} /\ rejected' = {}
@@ -28,6 +28,7 @@ TStep ==
      \/ e.op \in StepOps /\ free /\ UNCHANGED <<vars, free, obs>>
      \/ /\ e.op \in StepOps /\ ~free /\ UNCHANGED <<free, obs>>
         /\ \/ e.op = "Call" /\ Call(e.t) /\ Q(e)
+           \/ e.op = "SEnter" /\ SEnter(e.t) /\ Q(e)
            \/ e.op = "Cancel" /\ Cancel(e.t) /\ Q(e)
            \/ e.op = "SCheck" /\ SCheck(e.t, e.br) /\ Q(e)
            \/ e.op = "SFast" /\ SFast(e.t, e.br) /\ Q(e) /\ (e.br = "send" => obs = <<Id(e.t, k[e.t])>>)
@@ -36,6 +37,7 @@ TStep ==
            \/ e.op = "WDrain" /\ WDrain(e.br) /\ Q(e)
            \/ e.op = "WFlush" /\ WFlush(e.br = "TRUE") /\ Q(e) /\ obs = batch
            \/ e.op = "XClose" /\ XClose /\ Q(e)
+           \/ e.op = "XStop" /\ XStop /\ Q(e)
            \/ e.op = "XWait" /\ XWait /\ Q(e)
 TInit == Init /\ l = 1 /\ free = FALSE /\ obs = <<>>
 TSpec == TInit /\ [][TStep]_<<vars, l, free, obs>>
